@@ -22,7 +22,8 @@ def run_plan(chk, pid, plan, nontrivial_fn, also=()):
             chk, st["flavour"], st.get("exe", "record"), st["scen"], n, st["opts"], seed_offset=k * 101,
             module=st.get("module", "TraceCircuit"))
         tracecheck.attribute(chk, results, pid, exe, st["scen"], st["flavour"], d, also=also,
-                             module=st.get("module", "TraceCircuit"), exe_name=st.get("exe", "record"))
+                             module=st.get("module", "TraceCircuit"), exe_name=st.get("exe", "record"),
+                             keep_events=st.get("keep_events", False))
         notes = {}
         for rep, _evs, _p in results:
             for f in rep["fails"]:
